@@ -85,7 +85,7 @@ class InitiateRequest(AbstractXDlmsApdu):
             raise ValueError(
                 f"Didnt receive conformance tag correcly, got {conformance_tag!r}"
             )
-        conformance = xdlms.Conformance.from_bytes(data[-5:-2])
+        conformance = xdlms.Conformance.from_bytes(data[-6:-2])
         max_pdu_size = int.from_bytes(data[-2:], "big")
         dedicated_key_obj = object_dict.pop("dedicated_key")
         if dedicated_key_obj:
